@@ -28,6 +28,10 @@ def fault_case(rng):
     """prefix words, one faulty construct, words in the same paragraph, blank line, tail words"""
     w = words(rng, 9)
     pre = ' '.join(w[:3]) + rng.choice([' ', '\n', '\n\n'])
+    if rng.random() < 0.25:
+        # white space that str.splitlines() would break at, but that is no line break for the filter and its diagnostics
+        x = rng.choice(['\x0c', '\x0b', '\x1c', '\x1d', '\x1e', '\x85', '\u2028', '\u2029', '\r'])
+        pre = w[0] + rng.choice([x, ' ' + x, x + ' ']) + w[1] + ' ' + w[2] + rng.choice([' ', '\n', '\n\n', ' ' + x + ' '])
     kind = rng.choice(['maths', 'maths2', 'display', 'arg', 'optarg', 'verbatim', 'verb', 'skip', 'accent', 'input', 'badfile', 'display-sep'])
     same = ' '.join(w[3:6])
     tail = '\n\n' + ' '.join(w[6:9]) + rng.choice(['', '\n'])
